@@ -1,0 +1,35 @@
+//go:build verif
+
+// Contracts for the deductive verifier under /verif (comment-only file).
+package ast
+
+// ---- buffer pool and ownership of returned bytes (C06)
+//@ axiom astpool_elems: forall x any :: sync.poolElem(addr(bytesPool), x) ==> (x == nil || (dyntype(x) == typeid(*ByteSlice) && cast(*ByteSlice, x) != nil))
+
+//@ func newBuffer props C06
+//@   requires option.DefaultAstBufferSize <= 1099511627776 && sync.poolWF()
+//@   modifies $pooled
+//@   ensures result != nil && fresh(result) && (base(*result) == 0 || fresh(*result))
+//@   ensures !$pooled[base(*result)]
+//@   ensures forall r int :: $pooled[r] ==> old($pooled[r])
+//@   ensures sync.poolWF()
+
+//@ func freeBuffer props C06
+//@   requires buf != nil && sync.poolWF()
+//@   modifies *buf, $pooled
+//@   ensures forall r int :: $pooled[r] == (old($pooled[r]) || (old(cap(*buf)) <= int(option.LimitBufferSize) && r == old(base(*buf))))
+//@   ensures base(*buf) == old(base(*buf))
+//@   ensures sync.poolWF()
+
+//@ func (*Node).toString assumed "string header over the node's raw text"
+//@ func (*Node).encode assumed "recursive serialiser (not yet under contract): appends to *buf, growing into a new array when needed; touches no pool"
+//@   requires buf != nil
+//@   modifies *buf, (*buf)[_]
+//@   ensures base(*buf) == old(base(*buf)) || fresh(*buf)
+
+// MarshalJSON: the bytes handed to the caller are never owned by the pool afterwards.
+//@ func (*Node).MarshalJSON props C06
+//@   requires option.DefaultAstBufferSize <= 1099511627776 && sync.poolWF()
+//@   modifies $pooled
+//@   ensures (r1 == nil && self != nil && self.t & _V_RAW == 0) ==> !$pooled[base(r0)]
+//@   ensures sync.poolWF()
